@@ -1,10 +1,10 @@
-\* C38 rejection is prefix-closed (justifies Prune in the geometry configs): no pruning, <= 3 structures, smaller value sets
+\* C38 rejection is prefix-closed (justifies Prune in the geometry configs): no pruning, <= 3 structures, smallest value sets (quick)
 CONSTANTS
   MinStart = 2
   MbrMax = 1
   PtrSize = 1
   MaxStructs = 3
-  OffVals <- OffSmall
+  OffVals <- OffTiny
   SizeVals = {0, 1, 2}
   MinVals = {0, 1}
   RoleVals = {"none", "mbr"}
